@@ -153,7 +153,9 @@ Qed.
 
 Example c08_ex_domain : In ([(0, 1, 3%Q); (1, 2, 7%Q)], 3) (circuits_upto 4 [3%Q; 7%Q] 4) /\
   fa_gates (fa_of (f3_input 3 (fun _ => 0%Q))) = gates_from (fun k => (k, 2 + k)) 0 [(0, 1, 3%Q); (1, 2, 7%Q)].
-Proof. split; [vm_compute; tauto|reflexivity]. Qed.
+Proof.
+  split; [|reflexivity]. apply in_flat_map. exists 2. split; [cbv; tauto|]. vm_compute. tauto.
+Qed.
 
 Example c08_ex_spec :
   assignment_cost 3 2 true false [(0, 1, Some 3%Q); (1, 2, Some 7%Q)] [CutGate; Leave] = Some (1 * 3 * 1)%Q /\
